@@ -1,1 +1,315 @@
-// harnesses for this module
+// Harnesses over src/stream.rs (child module of `stream`)
+use super::*;
+use crate::verif_env::refmodel;
+use crate::verif_env::*;
+use bitstream_io::{BitRead, BitWrite};
+
+// ---------------------------------------------------------------------------
+// Frame header field tables against RFC 9639 section 9.1 (C03: every coding is
+// decoded to the value the format defines; C05: reserved codes are rejected)
+// ---------------------------------------------------------------------------
+
+/// RFC 9639 table 14 (block size bits); `extra` is the 8/16-bit "uncommon" field
+fn rfc_block_size(code: u64, extra: u64) -> Option<u32> {
+    match code {
+        0 => None,
+        1 => Some(192),
+        2..=5 => Some(144u32 << code),
+        6 => Some((extra & 0xFF) as u32 + 1),
+        7 => Some((extra & 0xFFFF) as u32 + 1),
+        _ => Some(1u32 << code),
+    }
+}
+
+// @harness prop=C03,C05 tier=quick expect=pass timeout=300
+// @units stream::BlockSize<()>::from_reader stream::BlockSize<u16>::from_reader stream::BlockSize::into_u16
+// @bound all 16 block-size codes, all 8- and 16-bit uncommon values
+// @oracle value == RFC 9639 block size table (144*2^n, 2^n, uncommon+1); code 0000 => Err(InvalidBlockSize); uncommon 16-bit value 65535 (block size 65536, not representable in STREAMINFO) => Err
+#[kani::proof]
+#[kani::unwind(4)]
+fn c03_hdr_block_size_table() {
+    let vals: [u64; 2] = kani::any();
+    let mut r = ModelBits::new(Script::new(&vals), 15);
+    let code = vals[0] & 15;
+    let first: Result<BlockSize<()>, Error> = r.parse();
+    match rfc_block_size(code, vals[1]) {
+        None => assert!(matches!(first, Err(Error::InvalidBlockSize))),
+        Some(expected) => {
+            let first = first.unwrap();
+            let full: Result<BlockSize<u16>, Error> = r.parse_using(first);
+            if expected <= 65535 {
+                let v: u16 = full.unwrap().into();
+                assert!(u32::from(v) == expected);
+            } else {
+                assert!(matches!(full, Err(Error::InvalidBlockSize)));
+            }
+            // uncommon codes consume exactly their extra field
+            let extra_bits = if code == 6 { 8 } else if code == 7 { 16 } else { 0 };
+            assert!(r.pos == 4 + extra_bits);
+        }
+    }
+}
+
+/// RFC 9639 table 15 (sample rate bits)
+fn rfc_sample_rate(code: u64, extra: u64, streaminfo: Option<u32>) -> Result<u32, bool> {
+    // Err(true) = forbidden code, Err(false) = needs STREAMINFO but none given
+    match code {
+        0 => streaminfo.ok_or(false),
+        1 => Ok(88200),
+        2 => Ok(176400),
+        3 => Ok(192000),
+        4 => Ok(8000),
+        5 => Ok(16000),
+        6 => Ok(22050),
+        7 => Ok(24000),
+        8 => Ok(32000),
+        9 => Ok(44100),
+        10 => Ok(48000),
+        11 => Ok(96000),
+        12 => Ok((extra & 0xFF) as u32 * 1000),
+        13 => Ok((extra & 0xFFFF) as u32),
+        14 => Ok((extra & 0xFFFF) as u32 * 10),
+        _ => Err(true),
+    }
+}
+
+// @harness prop=C03,C05 tier=quick expect=pass timeout=300
+// @units stream::SampleRate<()>::from_reader stream::SampleRate<u32>::from_reader stream::SampleRate::into_u32
+// @bound all 16 sample-rate codes, all 8/16-bit uncommon values, STREAMINFO rate present (any 20-bit value) or absent
+// @oracle value == RFC 9639 sample rate table; 1111 => Err(InvalidSampleRate); 0000 without STREAMINFO => Err(NonSubsetSampleRate)
+#[kani::proof]
+#[kani::unwind(4)]
+fn c03_hdr_sample_rate_table() {
+    let vals: [u64; 2] = kani::any();
+    let si: Option<u32> = if kani::any() {
+        let v: u32 = kani::any();
+        kani::assume(v < (1 << 20));
+        Some(v)
+    } else {
+        None
+    };
+    let mut r = ModelBits::new(Script::new(&vals), 15);
+    let code = vals[0] & 15;
+    let first: Result<SampleRate<()>, Error> = r.parse_using(si);
+    match rfc_sample_rate(code, vals[1], si) {
+        Err(true) => assert!(matches!(first, Err(Error::InvalidSampleRate))),
+        Err(false) => assert!(matches!(first, Err(Error::NonSubsetSampleRate))),
+        Ok(expected) => {
+            let full: SampleRate<u32> = r.parse_using(first.unwrap()).unwrap();
+            assert!(u32::from(full) == expected);
+            let extra_bits = if code == 12 { 8 } else if code == 13 || code == 14 { 16 } else { 0 };
+            assert!(r.pos == 4 + extra_bits);
+        }
+    }
+}
+
+// @harness prop=C03,C05 tier=quick expect=pass timeout=300
+// @units stream::ChannelAssignment::from_reader stream::ChannelAssignment::count
+// @bound all 16 channel-assignment codes
+// @oracle 0..=7 => n+1 independent channels; 8/9/10 => left-side/side-right/mid-side (2 channels); 11..=15 => Err(InvalidChannels)
+#[kani::proof]
+#[kani::unwind(4)]
+fn c03_hdr_channel_assignment_table() {
+    let vals: [u64; 1] = kani::any();
+    let mut r = ModelBits::new(Script::new(&vals), 15);
+    let code = vals[0] & 15;
+    let ca: Result<ChannelAssignment, Error> = r.parse();
+    if code <= 7 {
+        let ca = ca.unwrap();
+        assert!(matches!(ca, ChannelAssignment::Independent(_)));
+        assert!(u64::from(ca.count()) == code + 1);
+    } else if code == 8 {
+        assert!(matches!(ca, Ok(ChannelAssignment::LeftSide)));
+    } else if code == 9 {
+        assert!(matches!(ca, Ok(ChannelAssignment::SideRight)));
+    } else if code == 10 {
+        assert!(matches!(ca, Ok(ChannelAssignment::MidSide)));
+    } else {
+        assert!(matches!(ca, Err(Error::InvalidChannels)));
+    }
+}
+
+// @harness prop=C03,C05 tier=quick expect=pass timeout=300
+// @units stream::BitsPerSample::from_reader stream::BitsPerSample::into_u32 stream::BitsPerSample::checked_add
+// @bound all 8 bit-depth codes; STREAMINFO depth present (1..=32) or absent
+// @oracle RFC table 8/12/16/20/24/32; 000 => STREAMINFO depth or Err(NonSubsetBitsPerSample); 011 => Err(InvalidBitsPerSample); side-channel depth = depth+1, absent only at 32
+#[kani::proof]
+#[kani::unwind(4)]
+fn c03_hdr_bits_per_sample_table() {
+    let vals: [u64; 1] = kani::any();
+    let si_bits: u32 = kani::any();
+    kani::assume(si_bits >= 1 && si_bits <= 32);
+    let si = if kani::any() {
+        Some(SignedBitCount::<32>::try_from(si_bits).unwrap())
+    } else {
+        None
+    };
+    let mut r = ModelBits::new(Script::new(&vals), 15);
+    let code = vals[0] & 7;
+    let b: Result<BitsPerSample, Error> = r.parse_using(si);
+    let expected: Option<u32> = match code {
+        0 => si.map(|_| si_bits),
+        1 => Some(8),
+        2 => Some(12),
+        4 => Some(16),
+        5 => Some(20),
+        6 => Some(24),
+        7 => Some(32),
+        _ => None,
+    };
+    match expected {
+        Some(e) => {
+            let b = b.unwrap();
+            assert!(u32::from(b) == e);
+            let sbc: SignedBitCount<32> = b.into();
+            assert!(u32::from(sbc) == e);
+            match b.checked_add(1) {
+                Some(side) => assert!(u32::from(side) == e + 1 && e < 32),
+                None => assert!(e == 32),
+            }
+        }
+        None => {
+            if code == 0 {
+                assert!(matches!(b, Err(Error::NonSubsetBitsPerSample)));
+            } else {
+                assert!(matches!(b, Err(Error::InvalidBitsPerSample)));
+            }
+        }
+    }
+}
+
+// @harness prop=C03,C05 tier=quick expect=pass timeout=300
+// @units stream::SubframeHeaderType::from_reader stream::SubframeHeader::from_reader
+// @bound all 64 subframe type codes, padding bit, wasted-bits flag and unary count (<= 63)
+// @oracle RFC 9639 table 19: 0 constant, 1 verbatim, 8..=12 fixed order code-8, 32..=63 LPC order code-31, everything else Err(InvalidSubframeHeaderType); padding bit 1 => Err(InvalidSubframeHeader); wasted = 0 or unary+1
+#[kani::proof]
+#[kani::unwind(4)]
+fn c03_subframe_type_table() {
+    let vals: [u64; 4] = kani::any();
+    let mut r = ModelBits::new(Script::new(&vals), 63);
+    let h: Result<SubframeHeader, Error> = r.parse();
+    let t = vals[1] & 63;
+    if vals[0] & 1 == 1 {
+        assert!(matches!(h, Err(Error::InvalidSubframeHeader)));
+    } else if (t >= 2 && t <= 7) || (t >= 13 && t <= 31) {
+        assert!(matches!(h, Err(Error::InvalidSubframeHeaderType)));
+    } else {
+        let h = h.unwrap();
+        match h.type_ {
+            SubframeHeaderType::Constant => assert!(t == 0),
+            SubframeHeaderType::Verbatim => assert!(t == 1),
+            SubframeHeaderType::Fixed { order } => assert!(u64::from(order) == t - 8 && order <= 4),
+            SubframeHeaderType::Lpc { order } => assert!(u64::from(order.get()) == t - 31),
+        }
+        if vals[2] & 1 == 0 {
+            assert!(h.wasted_bps == 0 && r.pos == 8);
+        } else {
+            let k = (vals[3] & 63) as u32;
+            assert!(h.wasted_bps == k + 1 && r.pos == 8 + u64::from(k) + 1);
+        }
+    }
+}
+
+/// reference decoder for the "UTF-8-like" coded number of RFC 9639 9.1.5,
+/// reading the same fields in the same granularity as the crate
+/// (unary prefix, remaining bits of the first byte, then 2+6 bits per byte)
+fn rfc_coded_number(r: &mut refmodel::R) -> Option<u64> {
+    let ones = r.read_unary::<0>().unwrap();
+    match ones {
+        0 => Some(r.read_var::<u64>(7).unwrap()),
+        1 => None,
+        2..=7 => {
+            let mut v: u64 = r.read_var::<u64>(7 - ones).unwrap();
+            let mut k = 1;
+            let mut ok = true;
+            while k < ones {
+                let marker = r.read_var::<u64>(2).unwrap();
+                let payload = r.read_var::<u64>(6).unwrap();
+                if marker != 0b10 {
+                    ok = false;
+                }
+                v = (v << 6) | payload;
+                k += 1;
+            }
+            if ok { Some(v) } else { None }
+        }
+        _ => None,
+    }
+}
+
+macro_rules! coded_number {
+    ($name:ident, $ones:expr) => {
+        #[kani::proof]
+        #[kani::unwind(9)]
+        fn $name() {
+            let mut vals: [u64; 14] = kani::any();
+            vals[0] = $ones;
+            let mut r1 = ModelBits::new(Script::new(&vals), 15);
+            let got: Result<FrameNumber, Error> = r1.parse();
+            let mut r2 = ModelBits::new(Script::new(&vals), 15);
+            match rfc_coded_number(&mut r2) {
+                Some(v) => {
+                    assert!(matches!(got, Ok(FrameNumber(n)) if n == v));
+                    assert!(r1.pos == r2.pos);
+                    assert!(v < (1u64 << 36));
+                }
+                None => {
+                    assert!(matches!(got, Err(Error::InvalidFrameNumber)));
+                }
+            }
+            // never run the drop glue of a Result<_, Error> whose variant is
+            // symbolic: Error::Io(io::Error) drags the whole io::Error
+            // destructor (boxed dyn Error) into the formula
+            std::mem::forget(got);
+        }
+    };
+}
+
+// @harness prop=C03,C05 tier=quick expect=pass timeout=300
+// @units stream::FrameNumber::from_reader
+// @bound 1-byte coding (0xxxxxxx), all values
+// @oracle value == RFC 9639 coded number, same bits consumed
+coded_number!(c03_hdr_coded_number_1, 0);
+
+// @harness prop=C03,C05 tier=quick expect=pass timeout=300
+// @units stream::FrameNumber::from_reader
+// @bound first byte 10xxxxxx (a continuation byte where a lead byte is due)
+// @oracle Err(InvalidFrameNumber)
+coded_number!(c03_hdr_coded_number_bad_lead, 1);
+
+// @harness prop=C03,C05 tier=quick expect=pass timeout=300
+// @units stream::FrameNumber::from_reader
+// @bound 2-byte coding, every payload and every continuation marker
+// @oracle value == RFC coded number; marker != 10 => Err(InvalidFrameNumber)
+coded_number!(c03_hdr_coded_number_2, 2);
+
+// @harness prop=C03,C05 tier=quick expect=pass timeout=300
+// @units stream::FrameNumber::from_reader
+// @bound 3-byte coding
+coded_number!(c03_hdr_coded_number_3, 3);
+
+// @harness prop=C03,C05 tier=thorough expect=pass timeout=600
+// @units stream::FrameNumber::from_reader
+// @bound 4-byte coding
+coded_number!(c03_hdr_coded_number_4, 4);
+
+// @harness prop=C03,C05 tier=thorough expect=pass timeout=600
+// @units stream::FrameNumber::from_reader
+// @bound 5-byte coding
+coded_number!(c03_hdr_coded_number_5, 5);
+
+// @harness prop=C03,C05 tier=thorough expect=pass timeout=600
+// @units stream::FrameNumber::from_reader
+// @bound 6-byte coding
+coded_number!(c03_hdr_coded_number_6, 6);
+
+// @harness prop=C03,C05 tier=quick expect=pass timeout=600
+// @units stream::FrameNumber::from_reader
+// @bound 7-byte coding (36-bit numbers, variable block size streams), every payload and marker
+coded_number!(c03_hdr_coded_number_7, 7);
+
+// @harness prop=C03,C05 tier=quick expect=pass timeout=300
+// @units stream::FrameNumber::from_reader
+// @bound first byte 11111111
+// @oracle Err(InvalidFrameNumber)
+coded_number!(c03_hdr_coded_number_ff, 8);
